@@ -28,6 +28,9 @@ def run(ctx):
     r36(ctx, core)
     c11.r114(ctx)
     c11.r116(ctx)
+    c11.r119(ctx, 'R3.10')
+    from . import c01
+    c01.r11(ctx)
     r38(ctx, core)
     r39(ctx)
     m = ctx.repo['cencoding']
